@@ -33,6 +33,12 @@ def payload_types(F):
 
 
 def run(F, R, ctx):
+    _run(F, R, ctx)
+    if "jit2" in (F.meta.get("features") or []):
+        jit_move_rule(F, R)
+
+
+def _run(F, R, ctx):
     R.rule("C03.a", "no road to `&mut payload` other than the checked API: get_mut_unchecked is called only inside the "
                     "checked accessors/destructor; no raw-pointer mutable dereference or *const->*mut cast targets a value "
                     "payload type; Gc/BiasedRc have no DerefMut/AsMut/BorrowMut impl; Gc's pub fns returning &mut are "
@@ -141,3 +147,39 @@ def run(F, R, ctx):
                     sites.append(fn.short())
     R.floor("C03.p", "Gc::get_mut/make_mut sites in the collection primitives", len(sites), 12)
     R.inst("C03.p", "%d in-place fast paths use the checked accessor" % len(sites), True, sample={"sites": sorted(set(sites))[:20]})
+
+
+def jit_move_rule(F, R):
+    from . import jitmodel
+    R.rule("C03.m", "the JIT moves a local out of its slot (MOVEREADLOCAL* → MaybeStackValue::MutRegister) only after every "
+                    "pending by-reference read of that slot on the shadow stack has been turned into a value: each construction "
+                    "of MutRegister in the translator is cut off from the function entry by a loop that calls "
+                    "immutable_register_to_value (directly, or in a helper whose call lies on a loop) — reifying only the first "
+                    "pending read leaves later operands reading the slot after the move, so an argument that is used twice "
+                    "and then moved into an in-place update is observed as void / as the updated value")
+    tr = jitmodel.translator(F)
+    byname = {f.name: f for f in tr}
+
+    def loop_blocks(f):
+        out = set()
+        for i, b in f.calls():
+            if re.search(r"::immutable_register_to_value$", b["callee"]) and i in f.reachable_from(f.succ(i)):
+                scc = {x for x in f.reachable_from(f.succ(i)) if i in f.reachable_from([x])}
+                out |= scc | {i}
+        return out
+    helpers = {f.name for f in tr if loop_blocks(f)}
+    n = 0
+    for f in sorted(tr, key=lambda x: x.name):
+        movers = [i for i, _, e in f.events("agg") if e[1] == "MaybeStackValue" and e[2] == "MutRegister"]
+        if not movers:
+            continue
+        via = loop_blocks(f) | {i for i, b in f.calls() if b["callee"] in helpers and b["callee"] != f.name}
+        for a in movers:
+            n += 1
+            ok = bool(via) and f.every_path_passes_from([0], [a], via)[0]
+            R.inst("C03.m", "%s / pending reads are reified in a loop before the move" % f.short(), ok,
+                   "%s builds MaybeStackValue::MutRegister (a move out of the local's slot, line %s) on a path that has not "
+                   "run a loop reifying every pending read of that slot: (list m m (hash-insert m 'a 1)) compiled by the JIT "
+                   "lets the second `m` read the slot after it was moved into the in-place insert" % (
+                       f.short(), [e[3] for _, _, e in f.events("agg") if e[2] == "MutRegister"][:1]), f.loc(), sample=True)
+    R.floor("C03.m", "MutRegister constructions in the translator", n, 2)
